@@ -129,7 +129,7 @@ class Driver:
 		if kind == 'parent':
 			return self.touch(answer(lambda: node_ref(nodes.parent(p))))
 		if kind == 'ancestor':
-			tag = q['tag']
+			tag = own_tag(p) if q['tag'] == '@own' else q['tag']
 			return self.touch(answer(lambda: node_ref(nodes.ancestor(p, tag))))
 		if kind == 'siblings':
 			return self.touch_all(answer(lambda: [node_ref(n) for n in nodes.siblings(p)]))
@@ -222,13 +222,19 @@ def expected_from_raw(q: dict[str, Any], walk: list[tuple[str, Any, str | None]]
 	if kind == 'ancestor':
 		cur: str | None = p
 		while cur is not None:
-			if name_of[cur] == q['tag']:
+			if name_of[cur] == (own_tag(p) if q['tag'] == '@own' else q['tag']):
 				return cur
 			cur = parent_of[cur]
 		return '!NodeNotFound'
 	if kind == 'by-missing':
 		return '!NodeNotFound'
 	return None
+
+
+def own_tag(path: str) -> str:
+	"""Tag of the path's own last element (distance 0 from the queried node)."""
+	last = path.split('.')[-1]
+	return last.split('[')[0]
 
 
 def resolution_failure(live: Any, ans: Any, exp: Any) -> bool:
@@ -381,7 +387,7 @@ def gen_queries(rng: random.Random, n: int, kinds: list[str]) -> list[dict[str, 
 			p = max(0, p + rng.randint(-3, 3))  # neighbours in document order
 		q: dict[str, Any] = {'q': kind, 'p': p}
 		if kind == 'ancestor':
-			q['tag'] = rng.choice(['class_def', 'function_def', 'block', 'file_input', 'if_stmt', 'class_def_raw', 'function_def_raw', 'assign', 'zz', 'funccall'])
+			q['tag'] = rng.choice(['@own', '@own', 'class_def', 'function_def', 'block', 'file_input', 'if_stmt', 'class_def_raw', 'function_def_raw', 'assign', 'zz', 'funccall'])
 		out.append(q)
 	return out
 
@@ -444,7 +450,7 @@ class C10(Engine):
 		pool = pools.fixed_pool(0)
 		for tree in [{'kind': 'module', 'module': m} for m in pool['modules'] + LIB_MODULES + sorted(ZOO)] + [{'kind': 'synthetic', 'seed': s, 'depth': 4, 'fanout': 4} for s in range(4)]:
 			scheds = []
-			scheds.append([{'q': k, 'p': 0} for k in QUERY_KINDS if k != 'ancestor'] + [{'q': 'ancestor', 'p': 5, 'tag': 'file_input'}])
+			scheds.append([{'q': k, 'p': 0} for k in QUERY_KINDS if k != 'ancestor'] + [{'q': 'ancestor', 'p': 5, 'tag': 'file_input'}, {'q': 'ancestor', 'p': 5, 'tag': '@own'}, {'q': 'ancestor', 'p': 0, 'tag': '@own'}])
 			scheds.append([{'q': 'expand', 'p': 1}, {'q': 'children', 'p': 1}, {'q': 'expand', 'p': 1}, {'q': 'n.props', 'p': 1}, {'q': 'clear', 'p': 0}, {'q': 'children', 'p': 1}, {'q': 'by', 'p': 1}, {'q': 'by', 'p': 1}])
 			scheds.append(gen_queries(rng, 120, [k for k in QUERY_KINDS]))
 			cases.append({'pool': pool, 'tree': tree, 'schedules': scheds, 'pluck_budget': 100000})
